@@ -38,6 +38,12 @@ pub enum Case {
     /// `depth` conditionals nested through the element constructors (built iteratively, no parser involved), each
     /// preceded by OP_1
     ConstructedNest { depth: u32, via_else: bool },
+    /// random-free regression form: the script bytes run without the harness' size cap (only used by the committed witness
+    /// of the known finding item-size-allocation-aborts-the-process)
+    RawUncapped {
+        #[serde(with = "crate::gen::hexser")]
+        bytes: Vec<u8>,
+    },
     /// raw unlocking / locking script bytes on a one-input transaction (the libFuzzer `interptx` target)
     RawTx {
         #[serde(with = "crate::gen::hexser")]
@@ -84,6 +90,11 @@ fn stacks(i: &Interpreter) -> (Vec<Vec<u8>>, Vec<Vec<u8>>) {
 
 /// The totality oracle for one interpreter instance (shared with the fuzz target).
 pub fn check_interpreter(make: &dyn Fn() -> Result<Interpreter, String>, o: &mut Outcome) -> Result<(), Failure> {
+    check_interpreter_capped(make, o, true)
+}
+
+/// `cap` = stop (counted as excluded) before a step that would allocate more than the size cap
+pub fn check_interpreter_capped(make: &dyn Fn() -> Result<Interpreter, String>, o: &mut Outcome, cap: bool) -> Result<(), Failure> {
     let mut a = match lib_call("Interpreter constructor", make)? {
         Ok(i) => i,
         Err(_) => {
@@ -99,7 +110,7 @@ pub fn check_interpreter(make: &dyn Fn() -> Result<Interpreter, String>, o: &mut
     loop {
         let bits = a.script_bits();
         if let Some(bit) = bits.get(a.script_index()) {
-            if dangerous(bit, &last.0) {
+            if cap && dangerous(bit, &last.0) {
                 capped = true;
                 count_excluded("size-cap (computed allocation > 1 MiB)");
                 break;
@@ -346,6 +357,8 @@ impl Property for C16 {
         // native stack (clone, serialisation, the interpreter's own walk); the parsers stop at 500 levels, the constructors cannot
         match case {
             Case::ConstructedNest { depth, .. } if *depth >= 5000 => Some("constructed-nesting-overflows-native-stack"),
+            // OP_1 <2^31-1> OP_NUM2BIN: one step allocates 2 GiB and doubles it; under a 4 GiB address space the allocation fails and aborts
+            Case::RawUncapped { bytes } if bytes == &[0x51, 0x04, 0xff, 0xff, 0xff, 0x7f, 0x80] => Some("item-size-allocation-aborts-the-process"),
             _ => None,
         }
     }
@@ -489,6 +502,12 @@ impl Property for C16 {
                     let lib_bits = els_to_bits(&b);
                     o.label_if(gs::to_tokens(&b).len() > gs::to_tokens(&l).len(), "more-elements-than-the-locking-script");
                     check_interpreter(&|| Ok(Interpreter::from_transaction_and_script_bits(tx.clone(), 0, lib_bits.clone())), &mut o)?;
+                }
+            }
+            Case::RawUncapped { bytes } => {
+                o.label("raw-bytes-uncapped");
+                if let Ok(script) = lib_call("Script::from_bytes", || Script::from_bytes(bytes))? {
+                    check_interpreter_capped(&|| Ok(Interpreter::from_script(&script)), &mut o, false)?;
                 }
             }
             Case::ConstructedNest { depth, via_else } => {
